@@ -96,6 +96,10 @@ func goMapDefineOwnProperty(obj *object, name string, descriptor property, throw
 	if !descriptor.isDataDescriptor() {
 		return obj.runtime.typeErrorResult(throw)
 	}
+	if goObj.value.IsNil() {
+		// A nil map cannot be written to.
+		return obj.runtime.typeErrorResult(throw)
+	}
 	goObj.value.SetMapIndex(goObj.toKey(name), goObj.toValue(descriptor.value.(Value)))
 	return true
 }
